@@ -1,6 +1,7 @@
 //! vh -- conformance harness binding the TLA+ specification in /verif/spec to contentauth/c2pa-rs.
 mod common;
 mod c04;
+mod c11;
 mod c13;
 mod c14;
 mod c15;
@@ -41,6 +42,7 @@ fn main() {
         "c04-replay" => c04::replay(rest),
         "c04-observe" => c04::observe(rest),
         "c04-legacy" => c04::legacy(rest),
+        "c11-replay" => c11::replay(rest),
         "c13-replay" => c13::replay(rest),
         "c13-record" => c13::record(rest),
         "c14-pad" => c14::pad(rest),
